@@ -213,12 +213,13 @@ def concretize(eng, ob, fi, contract, timeout_ms=8000, drop_quantified=False):
     unf = unfold_rec_apps(terms)
     for t in terms + unf + bm.instantiate_axioms(terms + unf):
         s.add(t)
-    if s.check() != z3.sat:
+    from .state import guarded_check
+    if guarded_check(s, timeout_ms) != z3.sat:
         return None, "in-process re-solve did not return sat"
     s.push()
     for t in realism_constraints(terms + unf):
         s.add(t)
-    if s.check() != z3.sat:
+    if guarded_check(s, timeout_ms) != z3.sat:
         s.pop()     # keep the abstract model
     order = fi.params
 
@@ -244,7 +245,7 @@ def concretize(eng, ob, fi, contract, timeout_ms=8000, drop_quantified=False):
         s.push()
         for t in sizes:
             s.add(t <= bound)
-        r = s.check()
+        r = guarded_check(s, timeout_ms)
         if r == z3.sat:
             try:
                 cand, sizes2 = attempt(s.model())
